@@ -139,6 +139,199 @@ theorem order_independent_full_fails : ¬ OrderIndependentFull := by
   revert this
   decide
 
+/-! ### marketing parameters are ignored for matching … -/
+
+/-- **Two URLs with the same path and the same non-marketing pieces (in the same order) normalise
+to the same path-and-query and matching key** — whatever marketing parameters either of them
+carries, wherever they stand.  (`keptPieces`: the non-empty `&`-pieces whose decoded name is not in
+the configured set; with the ignore flag off nothing is a marketing parameter.) -/
+theorem marketing_ignored (cfg : Cfg) (u u' : Bytes) (hb : IsBytes u) (hb' : IsBytes u')
+    (hacc : (pqParse (sanitize u)).isSome = true) (hacc' : (pqParse (sanitize u')).isSome = true)
+    (hpath : (splitFirst 63 u).1 = (splitFirst 63 u').1)
+    (hkept : keptPieces cfg (queryOf u) = keptPieces cfg (queryOf u')) :
+    (fromConfig cfg u).pathAndQuery = (fromConfig cfg u').pathAndQuery ∧
+    reqKey cfg u = reqKey cfg u' := by
+  unfold reqKey
+  rw [fromConfig_accepted cfg u hb hacc, fromConfig_accepted cfg u' hb' hacc']
+  simp only [PQS.key, npq, keptOf_congr cfg hkept, hpath, and_self]
+
+/-- Instance: a marketing parameter appended to a URL that already has a query. -/
+theorem marketing_appended (cfg : Cfg) (u Q seg : Bytes) (hQ : (splitFirst 63 u).2 = some Q)
+    (h38 : 38 ∉ seg) (hmk : isMarketing cfg (parsePair seg).1 = true)
+    (hb : IsBytes u) (hb' : IsBytes (u ++ 38 :: seg))
+    (hacc : (pqParse (sanitize u)).isSome = true)
+    (hacc' : (pqParse (sanitize (u ++ 38 :: seg))).isSome = true) :
+    reqKey cfg (u ++ 38 :: seg) = reqKey cfg u := by
+  refine (marketing_ignored cfg (u ++ 38 :: seg) u hb' hb hacc' hacc ?_ ?_).2
+  · rw [splitFirst_append_some hQ]
+  · unfold queryOf
+    rw [splitFirst_append_some hQ, hQ]
+    simp only [Option.getD_some]
+    rw [keptPieces_append, keptPieces_marketing cfg h38 hmk, List.append_nil]
+
+/-- Instance: a marketing parameter added to a URL without query (`/a` vs `/a?utm_source=x`). -/
+theorem marketing_added (cfg : Cfg) (u seg : Bytes) (h63 : 63 ∉ u)
+    (h38 : 38 ∉ seg) (hmk : isMarketing cfg (parsePair seg).1 = true)
+    (hb : IsBytes u) (hb' : IsBytes (u ++ 63 :: seg))
+    (hacc : (pqParse (sanitize u)).isSome = true)
+    (hacc' : (pqParse (sanitize (u ++ 63 :: seg))).isSome = true) :
+    reqKey cfg (u ++ 63 :: seg) = reqKey cfg u := by
+  refine (marketing_ignored cfg (u ++ 63 :: seg) u hb' hb hacc' hacc ?_ ?_).2
+  · rw [splitFirst_url u seg h63, splitFirst_of_not_mem h63]
+  · unfold queryOf
+    rw [splitFirst_url u seg h63, splitFirst_of_not_mem h63]
+    simp only [Option.getD_some, Option.getD_none]
+    rw [keptPieces_marketing cfg h38 hmk, keptPieces_nil]
+
+/-! ### … and forwarded to the target iff so configured -/
+
+/-- **Skipped parameters are reported iff the pass flag is set and some ignored marketing
+parameter (other than the empty one) is present**; the reported string is exactly those
+parameters, sorted and re-encoded (`skippedStr`). -/
+theorem skipped_forwarded (cfg : Cfg) (u : Bytes) (hb : IsBytes u)
+    (hacc : (pqParse (sanitize u)).isSome = true) :
+    (skipped cfg u = some (skippedStr cfg (paramsOf u)) ↔
+      (cfg.passMarketing = true ∧ ∃ kv ∈ paramsOf u, isMarketing cfg kv.1 = true ∧ kv ≠ ([], []))) ∧
+    (skipped cfg u = none ↔
+      ¬(cfg.passMarketing = true ∧ ∃ kv ∈ paramsOf u, isMarketing cfg kv.1 = true ∧ kv ≠ ([], []))) := by
+  unfold skipped
+  rw [fromConfig_accepted cfg u hb hacc]
+  simp only [skippedOf]
+  rw [← skippedStr_ne_nil]
+  cases hp : cfg.passMarketing <;> cases hs : skippedStr cfg (paramsOf u) <;> simp
+
+/-- Without the pass flag, or without the ignore flag, nothing is ever forwarded (all URLs). -/
+theorem skipped_none (cfg : Cfg) (u : Bytes) (hb : IsBytes u)
+    (h : cfg.passMarketing = false ∨ cfg.ignoreMarketing = false) : skipped cfg u = none := by
+  unfold skipped
+  cases hacc : (pqParse (sanitize u)).isSome with
+  | false =>
+    have : pqParse (sanitize u) = none := by
+      cases h : pqParse (sanitize u) with
+      | none => rfl
+      | some _ => rw [h] at hacc; cases hacc
+    simp [fromConfig, this]
+  | true =>
+    rw [fromConfig_accepted cfg u hb hacc]
+    simp only [skippedOf]
+    rcases h with h | h
+    · simp [h]
+    · simp [skippedStr_of_not_ignore cfg h]
+
+/-- The redirect target carries exactly the skipped parameters: appended after `?`, or after `&`
+when the target already has a query; untouched when nothing was skipped. -/
+theorem location_forwarded (target s : Bytes) :
+    location target none = target ∧
+    location target (some s) = target ++ (if target.contains 63 then [38] else [63]) ++ s :=
+  ⟨rfl, rfl⟩
+
+/-! ### ASCII case under `ignore_path_and_query_case` -/
+
+/-- The full statement: URLs that differ only in ASCII letter case get the same key when the flag
+is set. -/
+def CaseIndependentFull : Prop :=
+  ∀ (cfg : Cfg) (u u' : Bytes), cfg.ignoreCase = true → IsBytes u → IsBytes u' →
+    (pqParse (sanitize u)).isSome = true → (pqParse (sanitize u')).isSome = true →
+    lowerAscii u = lowerAscii u' → reqKey cfg u = reqKey cfg u'
+
+def cfgCase : Cfg := { cfgDefault with ignoreCase := true }
+
+/-- It is false of the code, for two independent reasons (both recorded as known findings).
+(1) `case-key-order`: the parameters are sorted by the case-sensitive key before lower-casing:
+`/a?B=1&a=2` ↦ `/a?b=1&a=2`, `/a?b=1&A=2` ↦ `/a?a=2&b=1`. -/
+theorem case_independent_full_fails_key_order : ¬ CaseIndependentFull := by
+  intro h
+  have := h cfgCase [47, 97, 63, 66, 61, 49, 38, 97, 61, 50] [47, 97, 63, 98, 61, 49, 38, 65, 61, 50]
+    (by decide) (by decide) (by decide) (by decide) (by decide) (by decide)
+  revert this
+  decide
+
+/-- (2) `case-marketing-name`: marketing names are compared case-sensitively:
+`/a?utm_source` ↦ `/a`, `/a?UTM_SOURCE` ↦ `/a?utm_source`. -/
+theorem case_independent_full_fails_marketing_name : ¬ CaseIndependentFull := by
+  intro h
+  have := h cfgCase ([47, 97, 63] ++ [117, 116, 109, 95, 115, 111, 117, 114, 99, 101])
+    ([47, 97, 63] ++ [85, 84, 77, 95, 83, 79, 85, 82, 67, 69])
+    (by decide) (by decide) (by decide) (by decide) (by decide) (by decide)
+  revert this
+  decide
+
+/-- **What does hold**: if the paths agree up to ASCII case and the collected parameter lists
+correspond entry by entry up to ASCII case (so: same order after collecting) with the same entries
+classified as marketing parameters, the keys are equal.  `l` is the list of corresponding entries. -/
+theorem case_independent_partial (cfg : Cfg) (hic : cfg.ignoreCase = true) (u u' : Bytes)
+    (hb : IsBytes u) (hb' : IsBytes u')
+    (hacc : (pqParse (sanitize u)).isSome = true) (hacc' : (pqParse (sanitize u')).isSome = true)
+    (hpath : lowerAscii (splitFirst 63 u).1 = lowerAscii (splitFirst 63 u').1)
+    (l : List ((Bytes × Bytes) × (Bytes × Bytes)))
+    (hl : paramsOf u = l.map Prod.fst) (hl' : paramsOf u' = l.map Prod.snd)
+    (hcorr : ∀ pr ∈ l, lowerAscii pr.1.1 = lowerAscii pr.2.1 ∧ lowerAscii pr.1.2 = lowerAscii pr.2.2 ∧
+      isMarketing cfg pr.1.1 = isMarketing cfg pr.2.1) :
+    reqKey cfg u = reqKey cfg u' := by
+  unfold reqKey
+  rw [fromConfig_accepted cfg u hb hacc, fromConfig_accepted cfg u' hb' hacc']
+  simp only [PQS.key, hic, lowerIf, if_true, hl, hl']
+  exact lower_npq cfg (lower_pqPath (lower_pctEncode letters_not_encoded_url hpath)) l hcorr
+
+/-- In particular, for URLs without query: **path matching is ASCII-case-insensitive under the
+flag**, for every URL (accepted by `PathAndQuery` or not). -/
+theorem case_independent_path (cfg : Cfg) (hic : cfg.ignoreCase = true) (u u' : Bytes)
+    (hb : IsBytes u) (hb' : IsBytes u') (h63 : 63 ∉ u) (h63' : 63 ∉ u')
+    (h : lowerAscii u = lowerAscii u') : reqKey cfg u = reqKey cfg u' := by
+  rw [reqKey_no_query cfg u hb h63, reqKey_no_query cfg u' hb' h63']
+  simp only [hic, lowerIf, if_true]
+  exact lower_pctEncode letters_not_encoded_url h
+
+/-! ### separation -/
+
+/-- **Distinct paths or distinct (non-marketing) decoded parameter lists give distinct keys**
+(case-sensitive configuration; decoded parameters `Plain`: no `%`, `&`, no `=` in names, valid
+UTF-8, not the empty parameter).  Contrapositive form: equal keys force equal sanitised paths and
+equal collected parameters. -/
+theorem separation (cfg : Cfg) (hic : cfg.ignoreCase = false) (u u' : Bytes)
+    (hb : IsBytes u) (hb' : IsBytes u')
+    (hacc : (pqParse (sanitize u)).isSome = true) (hacc' : (pqParse (sanitize u')).isSome = true)
+    (hpl : ∀ kv ∈ (paramsOf u).filter (notMarketing cfg), Plain kv)
+    (hpl' : ∀ kv ∈ (paramsOf u').filter (notMarketing cfg), Plain kv)
+    (hkey : reqKey cfg u = reqKey cfg u') :
+    pqPath (sanitize (splitFirst 63 u).1) = pqPath (sanitize (splitFirst 63 u').1) ∧
+    (paramsOf u).filter (notMarketing cfg) = (paramsOf u').filter (notMarketing cfg) := by
+  unfold reqKey at hkey
+  rw [fromConfig_accepted cfg u hb hacc, fromConfig_accepted cfg u' hb' hacc'] at hkey
+  simp only [PQS.key, hic, lowerIf, Bool.false_eq_true, if_false] at hkey
+  have h63 : ∀ w : Bytes, 63 ∉ pqPath (sanitize (splitFirst 63 w).1) := fun w =>
+    not_mem_pqPath_63 (not_mem_pctEncode_of_not_mem isDelim_63 (not_mem_splitFirst_fst 63 w))
+  exact npq_inj cfg (h63 u) (h63 u') hpl hpl' hkey
+
+/-- … so a rule built from `u` (inside `WFurl`) does not match a request whose path or parameters
+differ. -/
+theorem separation_no_match (cfg : Cfg) (hic : cfg.ignoreCase = false) (u u' : Bytes)
+    (hb : IsBytes u) (hb' : IsBytes u') (hwf : WFurl cfg u = true)
+    (hacc' : (pqParse (sanitize u')).isSome = true)
+    (hpl : ∀ kv ∈ (paramsOf u).filter (notMarketing cfg), Plain kv)
+    (hpl' : ∀ kv ∈ (paramsOf u').filter (notMarketing cfg), Plain kv)
+    (hdiff : pqPath (sanitize (splitFirst 63 u).1) ≠ pqPath (sanitize (splitFirst 63 u').1) ∨
+      (paramsOf u).filter (notMarketing cfg) ≠ (paramsOf u').filter (notMarketing cfg)) :
+    ruleMatches cfg u u' = false := by
+  cases hm : ruleMatches cfg u u' with
+  | false => rfl
+  | true =>
+    unfold ruleMatches matchesKey at hm
+    rw [self_match cfg u hb hwf] at hm
+    have hkey : reqKey cfg u = reqKey cfg u' := by simpa using hm
+    have hacc := ((WFurl_iff cfg u).mp hwf).1
+    have := separation cfg hic u u' hb hb' hacc hacc' hpl hpl' hkey
+    rcases hdiff with h | h
+    · exact absurd this.1 h
+    · exact absurd this.2 h
+
+/-- The excluded point is real: a decoded value containing `%20` collides with a space
+(`/a?x=%2520` and `/a?x=%20` get the same key). -/
+theorem separation_fails_encoded_percent :
+    reqKey cfgDefault [47, 97, 63, 120, 61, 37, 50, 53, 50, 48] = reqKey cfgDefault [47, 97, 63, 120, 61, 37, 50, 48] ∧
+    paramsOf [47, 97, 63, 120, 61, 37, 50, 53, 50, 48] ≠ paramsOf [47, 97, 63, 120, 61, 37, 50, 48] := by
+  decide
+
 /-! ### re-normalising a request changes nothing -/
 
 theorem lowerByte_idem (b : Nat) : lowerByte (lowerByte b) = lowerByte b := by
@@ -188,5 +381,24 @@ example : SameNorm (fromConfig cfgDefault ([47, 97] ++ 63 :: [98, 61, 49, 38, 97
     (fromConfig cfgDefault ([47, 97] ++ 63 :: [97, 61, 50, 38, 98, 61, 49])) :=
   order_independent cfgDefault [47, 97] _ _ (by decide) (by decide) (by decide) (by decide) (by decide)
     (by decide) (by decide)
+
+/-- marketing: `/a?b=1&utm_source=x` and `/a?b=1` (ignore flag on). -/
+example : reqKey cfgDefault ([47, 97, 63, 98, 61, 49] ++ 38 :: [117, 116, 109, 95, 115, 111, 117, 114, 99, 101, 61, 120]) =
+    reqKey cfgDefault [47, 97, 63, 98, 61, 49] :=
+  marketing_appended cfgDefault _ [98, 61, 49] _ (by decide) (by decide) (by decide) (by decide) (by decide)
+    (by decide) (by decide)
+
+/-- forwarding: the skipped string of `/a?utm_source=x%20y` is `utm_source=x%20y`. -/
+example : skipped cfgDefault ([47, 97, 63] ++ [117, 116, 109, 95, 115, 111, 117, 114, 99, 101, 61, 120, 43, 121]) =
+    some [117, 116, 109, 95, 115, 111, 117, 114, 99, 101, 61, 120, 37, 50, 48, 121] := by decide
+
+/-- case: `/A?B=1` vs `/a?b=1` correspond entry by entry. -/
+example : reqKey cfgCase [47, 65, 63, 66, 61, 49] = reqKey cfgCase [47, 97, 63, 98, 61, 49] :=
+  case_independent_partial cfgCase rfl _ _ (by decide) (by decide) (by decide) (by decide) (by decide)
+    [(([66], [49]), ([98], [49]))] (by decide) (by decide) (by decide)
+
+/-- separation: `/a?x=1` vs `/a?x=2`. -/
+example : ruleMatches { cfgDefault with ignoreCase := false } [47, 97, 63, 120, 61, 49] [47, 97, 63, 120, 61, 50] = false := by
+  decide
 
 end Rio.C09
